@@ -280,10 +280,12 @@ func (c *CqlClientConnection) incomingLoop() {
 func (c *CqlClientConnection) outgoingLoop() {
 	log.Debug().Msgf("%v: listening for outgoing frames...", c)
 	c.waitGroup.Add(1)
+	// Close sets the field to nil before closing the channel: the loop must not read the field again
+	outgoingChan := c.outgoing
 	go func() {
 		abort := false
 		for !abort && !c.IsClosed() {
-			if outgoing, ok := <-c.outgoing; !ok {
+			if outgoing, ok := <-outgoingChan; !ok {
 				if !c.IsClosed() {
 					log.Error().Msgf("%v: outgoing frame channel was closed unexpectedly, closing connection", c)
 					abort = true
